@@ -283,6 +283,10 @@ func GenerateReDKGMessage(messages []storage.Message, newCommPubKeys map[string]
 			reDKG.DKGID = msg.DkgRoundID
 			reDKG.Threshold = request.SigningThreshold
 			for _, participant := range request.Participants {
+				// (a dump holds whatever was posted to the board, junk proposals included)
+				if participant == nil {
+					return nil, fmt.Errorf("the proposal of round %s has an empty participant entry", msg.DkgRoundID)
+				}
 				reDKG.Participants = append(reDKG.Participants, Participant{
 					DKGPubKey:     participant.DkgPubKey,
 					OldCommPubKey: participant.PubKey,
